@@ -5,7 +5,9 @@ package internal
 
 import (
 	"bytes"
+	crand "crypto/rand"
 	"fmt"
+	"io"
 	"math/big"
 	"testing"
 
@@ -54,6 +56,37 @@ func c14Construct(t *rapid.T, label string, p sm2ref.Point) (*SM2Point, string) 
 		return NewSM2Generator().Set(q), how
 	}
 	return q, how
+}
+
+// c14Entropy swaps, for one case in five, the process-wide crypto/rand.Reader for a hostile source while the multiplication runs:
+// all zeros, all ones, or one that fails. The multiple of a point is a function of the point and the scalar alone; a routine that
+// randomises its computation (blinding) must still return it whatever the environment's entropy source delivers.
+type c14Reader struct {
+	fill byte
+	fail bool
+}
+
+func (r c14Reader) Read(p []byte) (int, error) {
+	if r.fail {
+		return 0, io.ErrUnexpectedEOF
+	}
+	for i := range p {
+		p[i] = r.fill
+	}
+	return len(p), nil
+}
+
+func c14Entropy(t *rapid.T, f func()) string {
+	kind := gen.Pick(t, "entropy", "system", "system", "system", "system", "zeros", "ones", "failing")
+	if kind == "system" {
+		f()
+		return kind
+	}
+	old := crand.Reader
+	defer func() { crand.Reader = old }()
+	crand.Reader = map[string]c14Reader{"zeros": {0, false}, "ones": {0xff, false}, "failing": {0, true}}[kind]
+	f()
+	return kind
 }
 
 func c14Compare(t vt.TB, rec *stats.Recorder, sig, what string, got *SM2Point, err error, want sm2ref.Point, detail string) {
@@ -215,7 +248,10 @@ func TestVerif_C14_Variable(t *testing.T) {
 		before := ip.Bytes()
 		var got *SM2Point
 		var err error
-		if p := vt.Catch(func() { got, err = ScalarMult(ip, k) }); p != nil {
+		var entropy string
+		p := vt.Catch(func() { entropy = c14Entropy(t, func() { got, err = ScalarMult(ip, k) }) })
+		rec.Tally("crypto/rand.Reader:" + entropy)
+		if p != nil {
 			vt.Fail(t, rec, "C14:variable:panic", "ScalarMult panicked: %v\nP=%x k=%x", p, sm2ref.Encode(P), k)
 			return
 		}
@@ -272,7 +308,10 @@ func TestVerif_C14_Mixed(t *testing.T) {
 		ip := c14FromRef(t, P)
 		var got *SM2Point
 		var err error
-		if p := vt.Catch(func() { got, err = ScalarMixedMult_Unsafe(g, ip, s) }); p != nil {
+		var entropy string
+		p := vt.Catch(func() { entropy = c14Entropy(t, func() { got, err = ScalarMixedMult_Unsafe(g, ip, s) }) })
+		rec.Tally("crypto/rand.Reader:" + entropy)
+		if p != nil {
 			vt.Fail(t, rec, "C14:mixed:panic", "ScalarMixedMult_Unsafe panicked: %v\ng=%x\nP=%x\ns=%x", p, g, sm2ref.Encode(P), s)
 			return
 		}
